@@ -707,7 +707,9 @@ pub fn tclone(g: &mut Gen, r: &mut Rng, cases: usize) {
         let n = [3usize, 16, 20][r.below(3) as usize];
         let nk = 3 + r.below(6) as usize;
         let nlev = 2 + r.below(3) as u32;
-        let kds: Vec<Vec<u8>> = (0..nk).map(|i| digest_for_level(r.below(nlev as u64) as u32, 16, n, i as u8 * 2)).collect();
+        // digests built for base 4: the digit byte 0x04 is a zero digit under base 4 but NOT under base 16,
+        // so a tree that keeps the wrong base after a clone places later keys on other levels
+        let kds: Vec<Vec<u8>> = (0..nk).map(|i| digest_for_level(r.below(nlev as u64) as u32, 4, n, i as u8 * 2)).collect();
         let nt = 2 + r.below(2);
         for t in 0..nt {
             // mostly one base; sometimes a tree with another base (the clone must take the source's)
@@ -759,6 +761,22 @@ pub fn tclone(g: &mut Gen, r: &mut Rng, cases: usize) {
                         g.op(format!("hash {t}"));
                         g.op(format!("ser {t}"));
                         g.op(format!("diff2 {t} {src}"));
+                    }
+                    if r.chance(1, 2) {
+                        // the SAME further upserts on the copy and on its source: they must stay
+                        // interchangeable (same configuration, same content) and exchange nothing
+                        for _ in 0..1 + r.below(3) {
+                            let i = r.below(nk as u64) as usize;
+                            let v = 1 + r.below(2) as u8;
+                            for tt in [t, src] {
+                                g.op(format!("ups {tt} {} {} {}", xtok(&[0x20 + i as u8]), xtok(&kds[i]), xtok(&val_digest(v, n))));
+                            }
+                        }
+                        g.op(format!("hash {t}"));
+                        g.op(format!("hash {src}"));
+                        g.op(format!("diff2 {t} {src}"));
+                        g.op(format!("same {t} {src}"));
+                        g.note("clone-then-same-upserts");
                     }
                 }
                 _ => unreachable!(),
